@@ -186,10 +186,14 @@ def _instances(pc, consts, extra_terms=()):
   for h in pc:
     hs = h.children() if z3.is_and(h) else [h]
     for q in hs:
+      guard = None
+      if z3.is_implies(q) and z3.is_quantifier(q.arg(1)):      # A => forall x. B  is  forall x. (A => B)
+        guard, q = q.arg(0), q.arg(1)
       if z3.is_quantifier(q) and q.is_forall() and q.num_vars() == 1:
         for c in terms:
           if c.sort() == q.var_sort(0):
-            out.append(z3.substitute_vars(q.body(), c))
+            inst = z3.substitute_vars(q.body(), c)
+            out.append(inst if guard is None else z3.Implies(guard, inst))
   return out
 
 
